@@ -102,6 +102,16 @@ type extension struct {
 	extensions.NoExtensionImpl
 }
 
+// ForMessage returns an extension with the same options and no recorded elevator alerts.
+//
+// The elevator alerts seen so far are state for deduplicating within a single message.
+func (e extension) ForMessage() extensions.Extension {
+	return extension{
+		opts:           e.opts,
+		elevatorAlerts: map[string]*gtfsrt.Alert{},
+	}
+}
+
 var priortyToEffect = map[gtfsrt.MercuryEntitySelector_Priority]gtfsrt.Alert_Effect{
 	gtfsrt.MercuryEntitySelector_PRIORITY_NO_SCHEDULED_SERVICE:     gtfsrt.Alert_NO_SERVICE,
 	gtfsrt.MercuryEntitySelector_PRIORITY_NO_MIDDAY_SERVICE:        gtfsrt.Alert_REDUCED_SERVICE,
